@@ -150,8 +150,28 @@ def mirror_rule(chk, db):
                 if fo["op"] == "+" and "*" in txt and ("stride(Is)" in tx or "_strides[Is]" in tx):
                     ok = True
             if not ok and not seen_stride_fold:
-                chk.obligation("MIRROR", astx.sig(f), None)
-                chk.unknown_instance("MIRROR", astx.sig(f), "no fold over stride() found in operator() or the helpers it calls")
+                # not a fold: unroll the body symbolically for ranks 1..4 and compare with the layout's closed form
+                from ..rules import polymap as PM
+                layout = "left" if "layout_left" in f["q"] else ("right" if "layout_right" in f["q"] else None)
+                verdict, why = None, "no fold over stride() found in operator() or the helpers it calls"
+                if layout:
+                    try:
+                        for R in (1, 2, 3, 4):
+                            got = PM.evaluate(f, layout, R)
+                            spec_poly = PM.closed_form(layout, R)
+                            if not got == spec_poly:
+                                verdict = False
+                                why = "for rank %d operator() computes `%s`; layout_%s is `%s`" % (R, got, layout, spec_poly)
+                                break
+                        else:
+                            verdict, why = True, ""
+                    except PM.NotModelled as ex:
+                        verdict, why = None, "operator() is neither a fold nor a loop in the modelled subset (%s)" % ex
+                chk.obligation("MIRROR", astx.sig(f), verdict, evaluations=4)
+                if verdict is False:
+                    chk.violation("MIRROR", astx.sig(f), "not-the-layout-formula", "%s: %s" % (astx.loc(f), why), {"where": astx.loc(f)})
+                elif verdict is None:
+                    chk.unknown_instance("MIRROR", astx.sig(f), why)
                 continue
             chk.obligation("MIRROR", astx.sig(f), ok)
             if not ok:
@@ -428,11 +448,69 @@ def prodloop_rule(chk, db):
                 label = "%s :: `%s` in the loop over `%s`" % (astx.sig(f), astx.show(x, 50), counter)
                 chk.instance("PRODLOOP")
                 ok = all(any(IT.ref_name(z) == counter for z in astx.walk_expr(y["a"][0] if y.get("k") == "call" else y["i"])) for y in idx)
+                if x["op"] == "*=" and ok:
+                    # the empty product is 1: the accumulator starts at 1 and a literal returned by the same function
+                    # (the rank-0 special case) is 1 as well
+                    acc = IT.ref_name(x["l"])
+                    bad_lit = None
+                    for st in astx.walk_stmts(f["body"]):
+                        if st.get("k") == "decl":
+                            for v in st["vars"]:
+                                if v["n"] == acc and v.get("init") is not None:
+                                    i0 = astx.strip_casts(v["init"])
+                                    while i0 is not None and i0.get("k") in ("construct", "initlist") and len(i0.get("a", [])) == 1:
+                                        i0 = astx.strip_casts(i0["a"][0])
+                                    if i0 is not None and astx.int_value(i0) is not None and astx.int_value(i0) != 1:
+                                        bad_lit = (st, astx.int_value(i0), "starts the product at")
+                        if st.get("k") == "return" and st.get("e") is not None:
+                            r0 = astx.strip_casts(st["e"])
+                            while r0 is not None and r0.get("k") in ("construct", "initlist") and len(r0.get("a", [])) == 1:
+                                r0 = astx.strip_casts(r0["a"][0])
+                            if r0 is not None and astx.int_value(r0) is not None and astx.int_value(r0) != 1:
+                                bad_lit = (st, astx.int_value(r0), "returns")
+                    if bad_lit is not None:
+                        chk.obligation("PRODLOOP", label, False)
+                        chk.violation("PRODLOOP", label, "empty-product", "%s: %s %s %d; a product over no extents (rank 0, or an empty index range) is 1" % (
+                            astx.loc(f, bad_lit[0]), f["n"], bad_lit[2], bad_lit[1]), {"where": astx.loc(f)})
+                        continue
                 chk.obligation("PRODLOOP", label, ok)
                 if not ok:
                     chk.violation("PRODLOOP", label, "index-ignores-counter", "%s: the accumulated factor `%s` does not depend on the loop counter `%s`: "
                                   "every iteration uses the same extent" % (astx.loc(f, x), astx.show(x["r"], 40), counter), {"where": astx.loc(f)})
     return n
+
+
+def transpose_call_rule(chk, db):
+    """TRANSP-CALL: layout_transpose::mapping::operator()(rest..., i, j) is the nested mapping applied to (rest..., j, i)
+    ([linalg.transp.layout.transpose]): the last two parameters reach the nested mapping exchanged, the pack unchanged."""
+    fs = [f for f in db.funcs if (f.get("record") or "").startswith("etl::linalg::layout_transpose") and f["n"] == "operator()" and f.get("body") is not None]
+    if not fs:
+        chk.analysis_broken("TRANSP-CALL: layout_transpose::mapping::operator() no longer exists")
+        return
+    for f in fs:
+        ps = [p["n"] for p in f["params"]]
+        if len(ps) < 2:
+            continue
+        i, j = ps[-2], ps[-1]
+        construct = astx.sig(f)
+        chk.instance("TRANSP-CALL")
+        verdict = None
+        for x in astx.all_exprs(f):
+            if x.get("k") == "call" and len(x["a"]) >= 2:
+                fn = astx.strip_casts(x["f"])
+                if fn is not None and fn.get("k") in ("mem", "ref") and "nested" in (fn.get("n") or "").lower():
+                    a, b = astx.strip_casts(x["a"][-2]), astx.strip_casts(x["a"][-1])
+                    an = a.get("n") if a is not None and a.get("k") == "ref" else None
+                    bn = b.get("n") if b is not None and b.get("k") == "ref" else None
+                    if {an, bn} == {i, j}:
+                        verdict = (an, bn) == (j, i)
+                        where = x
+        chk.obligation("TRANSP-CALL", construct, verdict)
+        if verdict is False:
+            chk.violation("TRANSP-CALL", construct, "indices-not-exchanged", "%s: the nested mapping is applied to (..., %s, %s): the last two indices "
+                          "are not exchanged" % (astx.loc(f, where), i, j), {"where": astx.loc(f)})
+        elif verdict is None:
+            chk.unknown_instance("TRANSP-CALL", construct, "no call of the nested mapping with the two trailing indices found")
 
 
 def transpose_rule(chk, db):
@@ -676,6 +754,7 @@ META_EXTRA = "DYNSLOT (dynamic-extent slots selected by the type's own pattern; 
 META = (META[0] + " " + META_EXTRA, META[1])
 META = (META[0] + " SIB; MAPPED (every element access takes its offset from the mapping); DYNSLOT (c) no direct read of another extents object's slot array.", META[1])
 META = (META[0] + ' FULLPROD (total sizes multiply all rank() extents).', META[1])
+META = (META[0] + ' PRODLOOP (accumulated extents are indexed by the loop counter).', META[1])
 
 
 def run(chk, tier):
@@ -694,6 +773,7 @@ def run(chk, tier):
     dynslot_rule(chk, db)
     mapped_rule(chk, db)
     fullprod_rule(chk, db)
+    transpose_call_rule(chk, db)
     if prodloop_rule(chk, db) < 1:
         chk.unknown_instance('PRODLOOP', 'etl::extents', 'no accumulating loop over extents found')
     transpose_rule(chk, db)
